@@ -50,6 +50,12 @@ func genC08(r *Rnd, t Tier) *Case {
 		at := r.Intn(len(kinds) + 1)
 		kinds = append(kinds[:at:at], append([]string{KTimeout}, kinds[at:]...)...)
 	}
+	perAttempt := src != SrcTimeout && !bystander && r.P(0.2)
+	if perAttempt {
+		// a Timeout innermost, below the retry/hedge, short enough to fire on slow attempts: its
+		// ErrExceeded belongs to one attempt and must not be what a later cancellation reports
+		kinds = append(kinds, KTimeout)
+	}
 	if src == SrcTimeout {
 		// the Timeout encloses the retry/hedge: put it outermost, or just inside a fallback
 		kinds = append([]string{KTimeout}, kinds...)
@@ -81,6 +87,9 @@ func genC08(r *Rnd, t Tier) *Case {
 			p = genTimeout(r, unit)
 			if bystander {
 				p.Limit = time.Duration(r.Range(20, 60)) * 1000 * unit
+			}
+			if perAttempt {
+				p.Limit = time.Duration(r.Range(2, 12)) * unit
 			}
 		}
 		sc.Policies = append(sc.Policies, p)
@@ -356,6 +365,11 @@ func checkC08(c *checkCtx) {
 				// with simultaneous attempt results the hedge may accept another one than in the base schedule:
 				// a result an attempt had produced before the cancellation took effect is a completed result
 				c.cov("c08.result_is_earlier_hedge_attempt_result")
+			} else if src != SrcTimeout && got.Val == nil && got.Err == timeout.ErrExceeded && timeoutFiredInCurrentAttempt(c.Res, v) {
+				// a per-attempt Timeout had fired and its attempt was still unwinding when the cancellation
+				// arrived: two causes overlap and either may be named. Once the enclosing retry policy has
+				// moved on (scheduled the retry), that Timeout's verdict belongs to a finished attempt.
+				c.cov("c08.result_is_coinciding_attempt_timeout")
 			} else if gateRejection(got.Err) {
 				// refused by a bulkhead, rate limiter or breaker: that is how this execution completed, whatever the
 				// cancellation did (contention with the other clients differs from the base schedule)
@@ -509,6 +523,37 @@ func hedgeProducedBefore(sc *Scenario, v *ExecView, got *Event, seq int) bool {
 			if ch.Exit != nil && ch.Exit.Seq < seq && sameOutcome(got.Val, got.Err, ch.Exit.Val, ch.Exit.Err) {
 				return true
 			}
+		}
+	}
+	return false
+}
+
+// timeoutFiredInCurrentAttempt: some Timeout of the execution has fired and the attempt it belongs
+// to is not over: no retry policy enclosing it has scheduled or started a retry since (one
+// scheduled by a sibling hedge attempt, which shares the execution's recorded cancellation
+// result, does not end the attempt that timed out).
+func timeoutFiredInCurrentAttempt(res *RunResult, v *ExecView) bool {
+	anc := func(a, t int) bool {
+		for t >= 0 && t < len(res.Tasks) {
+			if t == a {
+				return true
+			}
+			t = res.Tasks[t].Parent
+		}
+		return false
+	}
+	for i, e := range v.Listeners {
+		if e.L != LTimeoutExceeded {
+			continue
+		}
+		superseded := false
+		for _, x := range v.Listeners[i+1:] {
+			if (x.L == LRetryScheduled || x.L == LRetry) && anc(x.Task, e.Task) {
+				superseded = true
+			}
+		}
+		if !superseded {
+			return true
 		}
 	}
 	return false
